@@ -6,10 +6,9 @@ From Inferno Require Import Base.Num Base.NumR C19.Encoders C19.EncodersLists C1
 Import ListNotations.
 Open Scope R_scope.
 Theorem pie_online_shape : forall (c : config RN) (xs : list (T RN)) (draws0 : list Z) (draws : list (list Z))
-    (outs : list (list bool)) (raised : bool),
-  pie_online RN c xs draws0 draws = Ok (outs, raised) ->
+    (outs : list (list bool)),
+  pie_online RN c xs draws0 draws = Ok outs ->
   length draws0 = length xs ->
-  raised = false /\
   length outs = Z.to_nat (c_steps c) /\
   (0 < c_steps c)%Z /\ Forall (fun row : list bool => length row = length xs) outs.
 Proof. exact (@Inferno.C19.EncodersProofs.pie_online_shape). Qed.
